@@ -59,7 +59,9 @@ func classesOf(b *rig.Built) []class {
 		return append([]class{{Name: "lit", SQL: "1", Kind: kLit, Val: int64(1)}}, exprs[:4]...)
 	}
 	var cs []class
-	lit := func(name, sql string, v interface{}) { cs = append(cs, class{Name: name, SQL: sql, Kind: kLit, Val: v}) }
+	lit := func(name, sql string, v interface{}) {
+		cs = append(cs, class{Name: name, SQL: sql, Kind: kLit, Val: v})
+	}
 	if b.Calendar != "" {
 		p0 := b.Periods[0]
 		pl := b.Periods[len(b.Periods)-1]
@@ -128,6 +130,8 @@ type Case struct {
 	OnDup   bool       `json:"ondup"`
 	Qual    bool       `json:"qual"` // db.t instead of t
 	SQL     string     `json:"sql,omitempty"`
+	// History: statements planned before this one on the SAME router (history family)
+	History []string `json:"history,omitempty"`
 }
 
 func (c *Case) seqSpec(b *rig.Built) []rig.SeqSpec {
@@ -243,7 +247,8 @@ type viol struct {
 type result struct {
 	v        *viol
 	rejected bool
-	key      string // non-trivial outcome key ("" = trivial)
+	key      string      // non-trivial outcome key ("" = trivial)
+	out      rig.Outcome // what the planner did (for the history family)
 }
 
 type written struct {
@@ -257,7 +262,7 @@ func isInt(s string) bool {
 }
 
 // evaluate plans one case and applies the oracle.
-func evaluate(b *rig.Built, cls map[string]class, c *Case) result {
+func evaluate(b *rig.Built, cls map[string]class, c *Case) (res result) {
 	c.SQL = buildSQL(b, c, cls)
 	orig, err := b.Env.ParseInsert(c.SQL)
 	if err != nil {
@@ -267,6 +272,7 @@ func evaluate(b *rig.Built, cls map[string]class, c *Case) result {
 	if out.ParseErr != "" {
 		ev.Fatalf("statement of the universe does not parse: %s: %v", c.SQL, out.ParseErr)
 	}
+	defer func() { res.out = out }()
 	key := keyColOf(b)
 	global := b.Layout.Rule == models.ShardGlobal
 	feat := map[string]string{"form": c.Form, "rule": b.Layout.Rule, "seq": c.Seq,
@@ -489,56 +495,69 @@ func describe(o rig.Outcome) string {
 	return "sent " + strings.Join(parts, " | ")
 }
 
+// lookupOne plans the point SELECT on a literal class and says whether it reaches the
+// table a row with that sharding value is placed in. skip: the class is not a routable
+// literal. v: the violation (nil if the lookup finds the table or is rejected).
+func lookupOne(b *rig.Built, cl class) (out rig.Outcome, sql string, single bool, v *viol, skip bool) {
+	if b.KeyCol == "" || cl.Kind != kLit {
+		return out, "", false, nil, true
+	}
+	want, ok := route(b, cl.Val)
+	if !ok {
+		return out, "", false, nil, true
+	}
+	sql = fmt.Sprintf("SELECT * FROM %s WHERE %s = %s", b.Table, b.KeyCol, cl.SQL)
+	out = b.Env.Plan(rig.DB, sql)
+	if out.ParseErr != "" {
+		ev.Fatalf("lookup does not parse: %s", sql)
+	}
+	if out.Rejected() {
+		return out, sql, false, nil, false
+	}
+	found := false
+	var locs []string
+	for _, s := range out.Sent {
+		_, names, err := b.Env.ParseNames(s.SQL)
+		if err != nil || len(names.Tables) != 1 {
+			ev.Fatalf("cannot read back lookup %q", s.SQL)
+		}
+		db := s.DB
+		if names.Tables[0].Schema.O != "" {
+			db = names.Tables[0].Schema.O
+		}
+		l := s.Slice + "/" + db + "." + names.Tables[0].Name.O
+		locs = append(locs, l)
+		if l == want.String() {
+			found = true
+		}
+	}
+	if !found {
+		v = &viol{summary: fmt.Sprintf("%v: a row with %s = %s is inserted into %v but %q is routed to %v", b.Layout, b.KeyCol, cl.SQL, want, sql, locs),
+			feat: map[string]string{"form": "lookup", "rule": b.Layout.Rule, "valueclass": cl.Name,
+				"effect": "lookup_miss", "linked": strconv.FormatBool(b.Layout.Linked)}}
+	}
+	return out, sql, len(locs) == 1 && found, v, false
+}
+
 // lookupCheck: a single-row insert of every routable literal class and the point SELECT
 // on the same value must meet in the same physical table.
 func lookupCheck(r *ev.Run, b *rig.Built, cs []class) {
-	if b.KeyCol == "" {
-		return
-	}
 	for _, cl := range cs {
-		if cl.Kind != kLit {
+		out, sql, single, v, skip := lookupOne(b, cl)
+		if skip {
 			continue
 		}
-		want, ok := route(b, cl.Val)
-		if !ok {
-			continue
-		}
-		sql := fmt.Sprintf("SELECT * FROM %s WHERE %s = %s", b.Table, b.KeyCol, cl.SQL)
-		out := b.Env.Plan(rig.DB, sql)
 		r.Add("evaluations", 1)
 		r.Add("lookups", 1)
-		if out.ParseErr != "" {
-			ev.Fatalf("lookup does not parse: %s", sql)
-		}
 		if out.Rejected() {
 			r.Add("lookups_rejected", 1)
 			continue
 		}
-		found := false
-		var locs []string
-		for _, s := range out.Sent {
-			_, names, err := b.Env.ParseNames(s.SQL)
-			if err != nil || len(names.Tables) != 1 {
-				ev.Fatalf("cannot read back lookup %q", s.SQL)
-			}
-			db := s.DB
-			if names.Tables[0].Schema.O != "" {
-				db = names.Tables[0].Schema.O
-			}
-			l := s.Slice + "/" + db + "." + names.Tables[0].Name.O
-			locs = append(locs, l)
-			if l == want.String() {
-				found = true
-			}
-		}
-		if len(locs) == 1 && found {
+		if single {
 			r.Distinct("nontrivial", "lookup:"+b.Layout.String()+":"+cl.Name)
 		}
-		if !found {
-			r.Violation(ev.Witness{
-				Summary: fmt.Sprintf("%v: a row with %s = %s is inserted into %v but %q is routed to %v", b.Layout, b.KeyCol, cl.SQL, want, sql, locs),
-				Features: map[string]string{"form": "lookup", "rule": b.Layout.Rule, "valueclass": cl.Name,
-					"effect": "lookup_miss", "linked": strconv.FormatBool(b.Layout.Linked)},
+		if v != nil {
+			r.Violation(ev.Witness{Summary: v.summary, Features: v.feat,
 				Case: Case{Layout: b.Layout, Form: "lookup", Classes: []string{cl.Name}, Seq: "none", SQL: sql}})
 		}
 	}
@@ -712,6 +731,30 @@ func runLayout(r *ev.Run, l rig.Layout, fams []family) {
 	r.Add("rejected_although_routable", rejectedRoutable)
 }
 
+// replayHistoryCase re-runs a witness of the history family: the history on a fresh
+// router, then the subject, with both oracles.
+func replayHistoryCase(r *ev.Run, rc Case, cls map[string]class) {
+	s := hstmt{Name: "S:replay", SQL: rc.SQL}
+	if rc.Form != "history" {
+		c := rc
+		c.History = nil
+		s.C = &c
+	}
+	fresh, _ := replayHistory(rc.Layout, cls, nil, s)
+	after, v := replayHistory(rc.Layout, cls, rc.History, s)
+	fmt.Println("replay: history", rc.History)
+	fmt.Println("  subject:", s.SQL)
+	fmt.Println("  fresh router:  ", describe(fresh))
+	fmt.Println("  after history: ", describe(after))
+	r.Add("evaluations", 2)
+	if v != nil {
+		r.Violation(ev.Witness{Summary: v.summary, Features: v.feat, Case: rc})
+	}
+	if sig(fresh) != sig(after) {
+		reportHistoryDependence(r, rc.Layout, cls, rc.History, s, sig(fresh), sig(after))
+	}
+}
+
 func main() {
 	gx.Quiet()
 	r := ev.Start("C03", "exploration")
@@ -735,6 +778,10 @@ func main() {
 		cls := map[string]class{}
 		for _, c := range cs {
 			cls[c.Name] = c
+		}
+		if len(rc.History) > 0 || rc.Form == "history" {
+			replayHistoryCase(r, rc, cls)
+			r.Finish()
 		}
 		res := evaluate(b, cls, &rc)
 		fmt.Println("replay:", rc.SQL)
@@ -771,9 +818,22 @@ func main() {
 	if n < len(ls) || r.TimeUp() {
 		r.Capped(fmt.Sprintf("%d of %d layouts completed", done, len(ls)))
 	}
+	hls := historyLayouts(r)
+	hdone := 0
+	hn := enum.Parallel(len(hls), r.TimeUp, func(i int) {
+		historyFamily(r, hls[i], 2)
+		mu.Lock()
+		hdone++
+		mu.Unlock()
+	})
+	if hn < len(hls) || r.TimeUp() {
+		r.Capped(fmt.Sprintf("history family: %d of %d layouts completed", hdone, len(hls)))
+	}
+	r.Set("history_layouts", len(hls))
+	r.Set("history_bound", fmt.Sprintf("%d layouts (11 rule types, own table and linked child; shapes %s): a subject S (INSERT VALUES and INSERT SET with every sharding-value class, 2- and 3-row VALUES, REPLACE, the point lookup of every routable literal class, full scan, NOT BETWEEN, BETWEEN, IN, NOT IN, range, OR, UPDATE, DELETE, join, global-table INSERT/UPDATE) is planned after every prefix of 1-2 distinct statements of an 18-statement pool (INSERT VALUES 1 and 3 rows, INSERT SET, INSERT into the parent/child table, global INSERT/UPDATE, NOT BETWEEN with adjacent and with far-apart bounds, BETWEEN, IN, NOT IN, range, OR, full scan, UPDATE, DELETE, join) on the SAME router; the subjects follow one another on that router, rotated per prefix", len(hls), map[bool]string{true: "2x2, plus 3x1 for range/date rules (linked: 2x2)", false: "1x2 2x1 2x2 3x1 1x4 4x1"}[r.Quick()]))
 	r.Set("layouts", len(ls))
 	r.Set("bound", fmt.Sprintf("%d layouts (11 rule types x {own table, linked child} + global; slices x tables-per-slice shapes: %s); per layout: %s; plus one point SELECT per routable literal class", len(ls), map[bool]string{true: "1x1 1x2 2x1 2x2 3x1 1x4 4x1 (linked children: 1x2 2x2 3x1)", false: "all of 1-4 x 1-4"}[r.Quick()], bound))
-	r.Set("rule", "every statement of the bounded universe is enumerated (no sampling). distinct_nontrivial counts distinct (layout, form, value-class vector, outcome) with default options where the outcome is either a verified placement of every row in its physical table or a rejection that the oracle demanded (a row with an unroutable sharding value), plus distinct (layout, class) point lookups that were pruned to exactly the table of the inserted row")
+	r.Set("rule", "every statement of the bounded universe is enumerated (no sampling). distinct_nontrivial counts distinct (layout, form, value-class vector, outcome) with default options where the outcome is either a verified placement of every row in its physical table or a rejection that the oracle demanded (a row with an unroutable sharding value), plus distinct (layout, class) point lookups that were pruned to exactly the table of the inserted row, plus distinct (layout, prefix, subject) of the history family where the subject was accepted after the prefix and its plan was identical to its plan on a fresh router")
 	r.Assume("Rule.FindTableIndex is the reference for where a sharding value lives (its agreement with Mycat / the rule definitions is the subject of C07-C09)")
 	r.Assume("a panic inside BuildPlan is recovered by handleQuery and therefore counts as a rejection")
 	r.Assume("time zone UTC for integer keys of calendar rules")
